@@ -346,7 +346,8 @@ impl Iterator for AddressIterator {
         match self.remain.checked_sub(1) {
             Some(x) => {
                 let ret = self.current;
-                self.current += 1;
+                // the last address of a range may be u16::MAX
+                self.current = self.current.wrapping_add(1);
                 self.remain = x;
                 Some(ret)
             }
